@@ -203,6 +203,12 @@ for _p in ("C01", "C02", "C03", "C04", "C05"):
 
 # fetch engine and byzantine merges also under the race detector: a fifth of the worker slots runs the same
 # runs with the -race build (the library's own goroutines - fetch workers, verification workers - are real)
+# C15, C16: a fifth of the worker slots runs E1 scenarios in which tasks iterate and merge with small size bounds on one shared log
+for _p in ("C15", "C16"):
+    PROPS[_p].setdefault("also", []).append(dict(prop=_p + "c", variant="race", share=0.2))
+    PROPS[_p]["rule"] += (" A fifth of the runs are E1 runs (seeded task scheduler, race build): tasks append, iterate and merge with small size bounds on one shared log; "
+                          "every cut is checked against the linearisation of the state it was taken from, every iteration against the states the log had during the call.")
+
 # C09 also in virtual time: two loads overlapping on one store, one of them given up by its caller
 PROPS["C09"].setdefault("also", []).append(dict(prop="C09T", variant="vt", share=0.15))
 PROPS["C09"]["rule"] += (" An eighth of the worker slots runs C09T (go1.26.8 synctest bubble): two loads overlap in virtual time on one store, the first is given up "
